@@ -71,6 +71,37 @@ Section SliceOps.
       Some (zero_range a1 w (len - w) ++ skipn len b, w)
     else None.
 
+  (* FilterInPlace with a predicate that has state of its own (a Go closure): the state is threaded through
+     the calls, one call per element, in index order.  [filter_in_place] is the case of a state-less one. *)
+  Fixpoint filter_loop_st {St : Type} (keep : St -> A -> bool * St) (st : St) (a : list A) (idx w : nat) (fuel : nat)
+    : list A * nat * St :=
+    match fuel with
+    | 0 => (a, w, st)
+    | S f =>
+        match nth_error a idx with
+        | Some e => let '(k, st') := keep st e in
+                    if k then filter_loop_st keep st' (set_nth a w e) (S idx) (S w) f
+                    else filter_loop_st keep st' a (S idx) w f
+        | None => (a, w, st)
+        end
+    end.
+
+  Definition filter_in_place_st {St : Type} (keep : St -> A -> bool * St) (st : St) (b : list A) (len : nat)
+    : option (list A * nat * St) :=
+    if len <=? length b then
+      let '(a1, w, st') := filter_loop_st keep st (firstn len b) 0 0 len in
+      Some (zero_range a1 w (len - w) ++ skipn len b, w, st')
+    else None.
+
+  (* its specification: one pass over the list, in order, each element offered to the predicate exactly once *)
+  Fixpoint filter_st {St : Type} (keep : St -> A -> bool * St) (st : St) (l : list A) : list A * St :=
+    match l with
+    | [] => ([], st)
+    | e :: t => let '(k, st1) := keep st e in
+                let '(r, st2) := filter_st keep st1 t in
+                ((if k then e :: r else r), st2)
+    end.
+
   (* Push(s, v...) : new visible slice, in a fresh array; the old backing array is not written *)
   Definition push (s v : list A) : list A := v ++ s.
 
